@@ -248,6 +248,20 @@ def rules(ctx, tier):
     version_counter(ctx, r)
     r.need(2, "writes of the version counter")
     out.append(r.finish())
+
+    r = Rule("R7", "a failed snapshot write is contained: log segments are pruned, and a blob is unlinked, only behind the "
+                   "successful step that makes them redundant in the same call (snapshot published / record logged)",
+             "the index write fails (or is skipped) and the segments that still hold the only copy of acknowledged "
+             "operations are pruned anyway: the operations are gone at the next open")
+    from . import order
+    ENTRY_all = must.entry_sets(ctx.api_roots())
+    order.require_before(ctx, r, must, ENTRY_all, "WAL_PRUNE", ["SNAP_PUBLISH:INDEX"])
+    order.require_before(ctx, r, must, must.entry_sets(ctx.live_roots()), "BLOB_UNLINK", ["WAL_WRITE"],
+                         only_bodies=set(b.path for b in ctx.prog.bodies.values()
+                                         if "INDEX_MUTATE" in sem_set(ctx.may.all_events(b.path)) or
+                                         b.path.endswith("delete_blobs")))
+    r.need(1, "prune site")
+    out.append(r.finish())
     return out
 
 
